@@ -26,6 +26,8 @@ type synCase struct {
 	Kind  string `json:"kind"`
 	Toks  []tkJ  `json:"toks"`
 	Canon string `json:"canon"`
+	Alias string `json:"alias"` // kind "alias": the select-field name the "ref" tokens refer to
+	Bare  bool   `json:"bare"`  // write the references without backquotes (plain lower-case names only)
 }
 
 type synTrace struct {
@@ -42,6 +44,10 @@ func tokText(t tkJ, r *rand.Rand) string {
 	switch t.T {
 	case "str":
 		return "'" + v + "'"
+	case "ref":
+		return "`" + v + "`"
+	case "bareref":
+		return v
 	}
 	if r != nil && r.Intn(3) == 0 {
 		v = strings.ToUpper(v)
@@ -97,6 +103,23 @@ func parseField(text string) (s string, errMsg string) {
 	return sel.FieldNames[0], ""
 }
 
+// parseWhere parses a whole statement (parser + checker, which binds names to select fields) and renders its WHERE.
+func parseWhere(q string) (s string, errMsg string) {
+	defer func() {
+		if r := recover(); r != nil {
+			errMsg = "panic: " + fmt.Sprint(r)
+		}
+	}()
+	st, _, err := kvql.BuildExecutor(q)
+	if err != nil || st == nil || st.Where == nil {
+		if err != nil {
+			return "", firstLine(err.Error())
+		}
+		return "", "no where clause"
+	}
+	return st.Where.Expr.String(), ""
+}
+
 func init() {
 	replayFamilies["syntax"] = func(args []string) {
 		c := parseCommon("syntax", args, nil)
@@ -107,6 +130,44 @@ func init() {
 			var sc synCase
 			if err := json.Unmarshal(raw, &sc); err != nil {
 				out.Infra = append(out.Infra, "bad line: "+err.Error())
+				return
+			}
+			if sc.Kind == "alias" {
+				idx++
+				if (idx-1)%c.shards != c.shard {
+					return
+				}
+				id := shortHash(raw)
+				if c.only != "" && c.only != id {
+					return
+				}
+				out.Stats.Cases++
+				out.Stats.distinct("alias:"+sc.Alias+":"+sc.Canon, true)
+				toks := sc.Toks
+				if sc.Bare {
+					toks = make([]tkJ, len(sc.Toks))
+					for i, t := range sc.Toks {
+						if t.T == "ref" {
+							t.T = "bareref"
+						}
+						toks[i] = t
+					}
+				}
+				head := "select key as `" + sc.Alias + "`, value where "
+				text := head + renderToks(toks, nil)
+				out.Stats.Evaluations++
+				got, perr := parseWhere(text)
+				if got != sc.Canon {
+					out.Finding(Finding{Prop: c.prop, Kind: "tree-differs", CaseID: id, Query: text,
+						Detail: fmt.Sprintf("engine=%q err=%q contract=%q", got, perr, sc.Canon)})
+					return
+				}
+				// the printed filter, put back into the same statement, is the same filter
+				again, perr2 := parseWhere(head + got)
+				if again != got {
+					out.Finding(Finding{Prop: c.prop, Kind: "canonical-form-not-a-fixpoint", CaseID: id, Query: head + got,
+						Detail: fmt.Sprintf("re-parse=%q err=%q", again, perr2)})
+				}
 				return
 			}
 			if sc.Kind != "case" {
@@ -217,6 +278,11 @@ func randSynTree(r *rand.Rand, depth int) *synNode {
 	l := randSynTree(r, depth-1)
 	switch op {
 	case "in":
+		if r.Intn(3) == 0 {
+			// IN over a list-valued call (`key in split(value, ',')`): an ordinary operand of comparison strength
+			rhs := &synNode{k: "call", a: []*synNode{{k: "id", v: []string{"split", "list", "f"}[r.Intn(3)]}, randSynTree(r, depth-2), randSynLeaf(r)}}
+			return &synNode{k: "bin", v: op, a: []*synNode{l, rhs}}
+		}
 		n := 1 + r.Intn(3)
 		items := make([]*synNode, n)
 		for i := range items {
